@@ -357,12 +357,15 @@ def check_refused(res, rmod, rule):
     """the rule is registered right after a malformed rule text was refused (fresh import per combination: parsing state is process-wide)"""
     c = res['counters']
     text = rr.default_text(rule)
+    was, THOROUGH[0] = THOROUGH[0], False          # (the paths generated from the rule itself, in every tier)
+    own_paths = [p for p in paths_for(rule) if rr.match(rule, p.strip('/')) is not None][:12]
+    THOROUGH[0] = was
     for bad in MALFORMED:
         for how in REFUSERS:
             sut.load(fresh=True)
             rm = sut.sub('router.radirouter')
             res['states'] += 1
-            for p in paths_for(rule)[:12]:
+            for p in own_paths:
                 r = roundtrip(rm, rule, text, p, hook=(bad, how))
                 if r is not None and r[0] == 'nomatch':
                     continue
